@@ -20,6 +20,9 @@ type Sched struct {
 	Launch     *ssa.Go       // the unique `go` whose closure reaches Execute
 	Loop       *ssa.Function // the scheduling loop: the function the launch belongs to in the virtual inlining view
 	LaunchFn   *ssa.Function // the function that textually holds the go statement (Loop itself, or a single-call-site helper of it)
+	GateFn     *ssa.Function   // the function holding the per-node pass (the loop over the nodes) the launch belongs to
+	GateSite   ssa.Instruction // in GateFn: the go statement, or the call that leads to it
+	GateLoop   *ir.Loop        // the loop over the nodes in GateFn
 	Worker     *ssa.Function // the launched closure / method
 	LoopFns    map[*ssa.Function]bool // Loop and the single-call-site helpers it is made of (worker side excluded)
 	WorkerFns  map[*ssa.Function]bool // Worker and the single-call-site helpers it is made of
@@ -90,6 +93,22 @@ func (e *Env) resolveSched() *Sched {
 			break
 		}
 		s.Loop = site.Parent()
+	}
+	// the per-node pass: lift the launch through single-call-site helpers until it sits in a loop
+	s.GateFn, s.GateSite = s.LaunchFn, ssa.Instruction(s.Launch)
+	for d := 0; d < 4; d++ {
+		if l := ir.InnermostLoop(ir.Loops(s.GateFn), s.GateSite.Block()); l != nil {
+			s.GateLoop = l
+			break
+		}
+		site := ir.UniqueSite(s.GateFn)
+		if site == nil {
+			break
+		}
+		if _, plain := site.(*ssa.Call); !plain {
+			break
+		}
+		s.GateSite, s.GateFn = site, site.Parent()
 	}
 	s.Worker = s.Launch.Call.StaticCallee()
 	s.WorkerFns = e.inlinedSet(s.Worker, nil)
@@ -181,6 +200,22 @@ func (s *Sched) after(a, b ssa.Instruction) bool {
 		b = us
 	}
 	return false
+}
+
+// events lists the status writes of a function set, each once: a store made in a
+// helper that belongs to the set is reported in the helper (with the helper's
+// own conditions), not again at its call site.
+func (s *Sched) events(set map[*ssa.Function]bool) []ir.StoreEvent {
+	var out []ir.StoreEvent
+	for _, f := range sortedFns(set) {
+		for _, ev := range s.statusEvents(f) {
+			if len(ev.Via) > 0 && set[ev.Via[0]] {
+				continue
+			}
+			out = append(out, ev)
+		}
+	}
+	return out
 }
 
 func (s *Sched) inWorker(f *ssa.Function) bool { return s.WorkerFns[f] }
